@@ -421,7 +421,7 @@ pub fn check_main(prop: &str, tier: Tier) -> i32 {
         };
         // watchdog: a worker whose announced case does not change for STALL seconds is a hang
         let stall = Duration::from_secs(
-            std::env::var("VERIF_STALL_S").ok().and_then(|s| s.parse().ok()).unwrap_or(180),
+            std::env::var("VERIF_STALL_S").ok().and_then(|s| s.parse().ok()).unwrap_or(90),
         );
         let mut last: BTreeMap<String, (String, Instant)> = BTreeMap::new();
         let mut hung: Option<u64> = None;
@@ -452,9 +452,17 @@ pub fn check_main(prop: &str, tier: Tier) -> i32 {
             break r;
         }
         restarts += 1;
-        if restarts > 12 {
-            eprintln!("child keeps dying; giving up (harness error)");
-            return 2;
+        if restarts > 12 || (restarts > 3 && !process_viols.is_empty()) {
+            if process_viols.is_empty() {
+                eprintln!("child keeps dying; giving up (harness error)");
+                return 2;
+            }
+            // several cases abort or hang: enough to report, do not spend the budget on restarts
+            println!("stopping after {} aborted / hung cases", process_viols.len());
+            break ChildResult {
+                stopped_early: true,
+                ..Default::default()
+            };
         }
         if let Some(idx) = hung {
             println!("watchdog: case {idx} made no progress for {}s", stall.as_secs());
